@@ -471,6 +471,76 @@ func (s *listSys) checkPaging() ([]*engine.Violation, int64) {
 	// start markers: every key of the universe (present or not), one beyond the end
 	markers := append([]string{}, s.u.keys...)
 	markers = append(markers, "zzz")
+	// prefixes that begin with the delimiter: what such a listing contains is outside the
+	// statement's side conditions, but whatever the unpaginated listing says, its pages must
+	// add up to it (the server's own unpaginated answer is the reference here)
+	if paginates {
+		for _, d := range s.delims() {
+			if d == "" || !s.sideOK(d) {
+				continue // (live keys that begin or end with the delimiter stay excluded)
+			}
+			for _, p := range []string{d, d + s.u.alpha[:1], d + s.u.alpha[1:2]} {
+				base := joinQ(drv.Q("prefix", p), drv.Q("delimiter", d))
+				full := s.w.List(s.bucket, base)
+				evals++
+				if full.Status != 200 || full.Panic != "" {
+					continue
+				}
+				ref := mergePage(full)
+				for mk := 1; mk <= len(ref.names)+1; mk++ {
+					for _, v2 := range []bool{false, true} {
+						var got []string
+						cont, trace := "", ""
+						for page := 0; ; page++ {
+							q := joinQ(base, "max-keys="+strconv.Itoa(mk))
+							if v2 {
+								q = joinQ(q, "list-type=2")
+							}
+							q = joinQ(q, cont)
+							lp := s.w.List(s.bucket, q)
+							evals++
+							ps := mergePage(lp)
+							trace += fmt.Sprintf(" | %q trunc=%v", ps.names, lp.IsTruncated)
+							if lp.Status != 200 || lp.Panic != "" || len(ps.names) > mk || page > len(ref.names)+2 {
+								got = append(got, fmt.Sprintf("<page %d: status %d, %d entries>", page, lp.Status, len(ps.names)))
+								break
+							}
+							got = append(got, ps.names...)
+							if !lp.IsTruncated {
+								break
+							}
+							switch {
+							case v2 && lp.NextToken != "":
+								cont = drv.Q("continuation-token", lp.NextToken)
+							case !v2 && lp.NextMarker != "":
+								cont = drv.Q("marker", lp.NextMarker)
+							case !v2 && len(lp.Entries) > 0 && len(lp.Prefixes) == 0:
+								cont = drv.Q("marker", lp.Entries[len(lp.Entries)-1].Key)
+							default:
+								got = append(got, "<truncated without a continuation>")
+							}
+							if strings.HasPrefix(got[len(got)-1], "<") {
+								break
+							}
+						}
+						// (with such a prefix a common prefix is not a prefix of its keys, so the merged
+						// order of keys and common prefixes is not defined: compare what was visited)
+						gs, rs := append([]string{}, got...), append([]string{}, ref.names...)
+						sort.Strings(gs)
+						sort.Strings(rs)
+						if strings.Join(gs, "\x00") != strings.Join(rs, "\x00") {
+							api := "V1"
+							if v2 {
+								api = "V2"
+							}
+							vs = append(vs, viol(sig("C04", kind, "walk", "pages-differ-from-unpaginated", delimClass(d)+",prefix-starts-with-delimiter,"+api), "GET /%s?%s with live keys %q, max-keys=%d: pages%s add up to %q, the unpaginated listing is %q", s.bucket, base, keys, mk, trace, got, ref.names))
+							break
+						}
+					}
+				}
+			}
+		}
+	}
 	for _, d := range s.delims() {
 		if !s.sideOK(d) {
 			continue
@@ -781,7 +851,7 @@ func listPlans(c *engine.Ctx, prop string) []listPlan {
 	// (byte order differs from code-point/collation order), spaces, plus and percent signs
 	ur := newListUniverse("ab/", 1, 3, "a", 0)
 	ur.name = "rich"
-	ur.keys = []string{"a b", "a%2Fb", "a&b", "a+b", "a<b>", "a\"b'", "a/é", "z", "é", "é/a&b", "€", "\U0001F600"}
+	ur.keys = []string{"a b", "a%2Fb", "a&b", "a+b", "a<b>", "a\"b'", "a/é", "a/日", "a/\U0001F600x", "z", "é", "é/a&b", "€", "\U0001F600"}
 	sort.Strings(ur.keys)
 	ur.prefixes = []string{"", "a", "a ", "a%", "a&", "a+", "a<", "a\"", "a/", "a/é", "z", "é", "é/", "é/a&", "€", "\U0001F600", "\xc3"}
 	for _, k := range []drv.Kind{drv.Mem, drv.Bolt, drv.MultiMem, drv.SingleMem} {
